@@ -174,6 +174,13 @@ def run(ck):
         v = ldefs[0].ast.value
         if isinstance(v, ast.BinOp) and isinstance(v.op, ast.Mult):
             sides = [v.left, v.right]
+            # a factor may be an explaining local with a single definition before the loop
+            rd10 = ck.rdefs(fi.fid, 'M0')
+            for i_, s_ in enumerate(sides):
+                if isinstance(s_, ast.Name):
+                    vals_ = rd10.value_exprs(ldefs[0], s_.id)
+                    if len(vals_) == 1 and not isinstance(vals_[0], str):
+                        sides[i_] = vals_[0]
             lens = [s for s in sides if isinstance(s, ast.Call) and call_name(s) == 'len'
                     and norm(s.args[0]) in ('self._blocks', 'self.getblocks()')]
             consts = [s for s in sides if s not in lens]
